@@ -52,4 +52,8 @@ man = {
     "notes": "All checks: ./check <id> <quick|thorough>; exit 0 held / 1 violation / 2 infrastructure. Unguarded fix: commits in /repo (genuine defects, see known_findings.json): " + "; ".join(fix_commits),
 }
 (V / "MANIFEST.json").write_text(json.dumps(man, indent=1) + "\n")
+allf = []
+for p in sorted((V / "findings.d").glob("*.json")):
+    allf.extend(json.loads(p.read_text()).get("findings", []))
+(V / "known_findings.json").write_text(json.dumps({"_comment": "generated union of findings.d/*.json by tools/mkmanifest.py; status 'known' entries are matched by (property,key) and printed as KNOWN-FINDING; 'fixed: <commit>' entries suppress nothing", "findings": allf}, indent=1) + "\n")
 print(f"{len(checks)} checks, {len(na)} not_applicable")
